@@ -276,9 +276,40 @@ def finding_matches(f, prop, op_line):
         return False
     if "op" in m and (len(toks) < 2 or toks[1] != m["op"]):
         return False
+    if "race_regex" in m:
+        return bool(re.search(m["race_regex"], op_line))
     if "input_regex" in m:
         dec = decode_op(op_line)
         text = "\x00".join(dec[2:])
         if not re.search(m["input_regex"], text, flags=re.S):
             return False
     return True
+
+
+# ---------------------------------------------------------------- race detector reports
+
+def parse_race_logs(prefix):
+    """Go race detector logs (GORACE=log_path=<prefix>): one entry per DATA RACE report:
+    key = the two innermost frames that lie in /repo's own files, with file names (line numbers dropped)."""
+    races = {}
+    for path in glob.glob(prefix + ".*"):
+        txt = open(path, errors="replace").read()
+        for block in txt.split("==================")[1::2]:
+            if "DATA RACE" not in block:
+                continue
+            accesses = re.split(r"\n\n", block.strip())
+            tops = []
+            for acc in accesses:
+                if not re.match(r"\s*(WARNING: DATA RACE\n)?\s*((Previous )?(read|write|atomic)[^\n]* at |Read at|Write at|Previous)", acc, flags=re.I):
+                    continue
+                frames = re.findall(r"^\s+(\S+)\(\)\n\s+(\S+?):(\d+)", acc, flags=re.M)
+                top = None
+                for fn, f, ln in frames:
+                    if f.startswith(REPO + "/") and "zz_verif_" not in f:
+                        top = "%s@%s" % (fn.split("/")[-1].replace("sipproxy.", ""), os.path.basename(f))
+                        break
+                tops.append(top or "harness")
+            if len(tops) >= 2:
+                key = " | ".join(sorted(tops[:2]))
+                races.setdefault(key, block.strip()[:6000])
+    return races
